@@ -26,7 +26,7 @@ RULE = (
     "Hypothesis draws an expression tree (all classes/options, depth <= 2, size 1-5), a history of 4-25 "
     "operations (requests of T, inv, sqrt, eigval, eigvec, factor, lu_and_piv, capacitance_matrix, hash, array, "
     "diagonal, log_abs_det, gradients, chained T/inv/sqrt, products, scalar multiples, comparisons, copy / deepcopy "
-    "/ pickle, in-place writes to every caller-supplied array; chained requests on derived objects such as T.inv, "
+    "/ pickle, in-place writes to every caller-supplied array and to arrays the matrix returned (array, diagonal, eigval, lu, inv.array, T.array, sqrt.array); chained requests on derived objects such as T.inv, "
     "(s*M).inv, (s*M).log_abs_det, inv.grad_*, -M.eigval; and the macro 'pair': on a fresh instance evaluate one "
     "cache-populating attribute A then any request B) and a single-option mutation of the tree. Oracle: "
     "every result equals the result of the same request on a freshly built instance (rtol 1e-9); operand content "
@@ -53,7 +53,7 @@ LAZY = ["T", "inv", "sqrt", "eigval", "eigvec", "factor", "lu_and_piv", "capacit
 # attributes whose evaluation populates a cache that derived objects may be handed
 WARM = ["inv", "log_abs_det", "capacitance", "sqrt", "eigval", "eigvec", "factor", "lu_and_piv", "T", "array",
         "grad_log_abs_det", "grad_quad", "diagonal", "hash", "inv.log_abs_det", "inv.inv", "T.inv"]
-OPS = LAZY + ["pair", "pair", "pair", "pair", "matvec", "rmatvec", "matmat", "mul", "div", "neg", "eq-twin", "eq-self", "copy", "deepcopy", "pickle",
+OPS = LAZY + ["write-returned", "write-returned", "pair", "pair", "pair", "pair", "matvec", "rmatvec", "matmat", "mul", "div", "neg", "eq-twin", "eq-self", "copy", "deepcopy", "pickle",
               "write", "matmul-twin"]
 
 
@@ -415,6 +415,46 @@ def run_case(case) -> Result:
                     res.fail(key(f"{op}-array"), f"{op} has a different dense array")
                 if arg % 2:
                     cur = c  # continue the history on the copy
+        elif op == "write-returned":
+            # in-place write into an array the matrix RETURNED (K = M.array; K += jitter): must raise, or leave every
+            # later answer of the matrix unchanged
+            name = ["array", "diagonal", "eigval", "lu", "inv.array", "T.array", "sqrt.array"][arg % 7]
+            probe, _ = build(spec)
+            if name == "lu":
+                if not hasattr(type(cur), "lu_and_piv"):
+                    continue
+            elif not applicable(probe.M, name, s):
+                continue
+
+            def fetch():
+                if name == "lu":
+                    return cur.lu_and_piv[0]
+                obj = cur
+                for a in name.split("."):
+                    obj = getattr(obj, a)
+                return obj
+
+            ok, a = guard("fetch:" + name, fetch)
+            if not ok or not isinstance(a, np.ndarray) or a.size == 0 or a.dtype.kind != "f":
+                continue
+            interesting = True
+            before_val = a.copy()
+            idx = np.unravel_index((arg // 7) % a.size, a.shape)
+            try:
+                a[idx] = a[idx] + 1.0
+                wrote = True
+            except ValueError:
+                wrote = False
+            res.classes.append("write-returned:" + ("accepted" if wrote else "rejected"))
+            if wrote:
+                ok, again = guard("refetch:" + name, lambda: np.array(fetch(), dtype=float))
+                ok2, now = guard("array-after-write", lambda: np.asarray(cur @ np.eye(cur.shape[1])))
+                changed = (ok and not same(again, before_val)) or (ok2 and not same(now, base_R, rtol=tol))
+                a[idx] = before_val[idx]
+                if changed:
+                    res.fail(f"C19:returned-array-writable:{label}.{name}", f"writing into the array returned by "
+                             f"{label}.{name} was accepted and changed what the matrix returns afterwards")
+                    break
         elif op == "write":
             if not supplied:
                 continue
